@@ -120,27 +120,26 @@ Theorem C12_getters_never_negative : forall cf s, reach cf s -> 0 <= get_concurr
 Proof. exact getters_nonneg. Qed.
 Print Assumptions C12_getters_never_negative.
 
-(* perIPConn.Close is idempotent in this model (the wrapper is identified with its connection). *)
+(* perIPConn.Close is idempotent (first LTS: the wrapper is identified with its connection; see the wrapper objects below). *)
 Theorem C12_close_idempotent : forall cf s c r s', nth_error (conns s) c = Some r -> closed r = true -> reg r = false ->
   step cf s (LUserClose c) = Some s' ->
   concurrency s' = concurrency s /\ open s' = open s /\ perip s' = perip s /\ conns s' = conns s /\ loops s' = loops s.
 Proof. exact close_idempotent. Qed.
 Print Assumptions C12_close_idempotent.
 
-(* ---- the wrapper pool (second LTS of Model/Limits.v: perIPConn objects keep their identity and are recycled) ------------ *)
-(* FINDING peripconn-stale-close-hits-recycled-wrapper: "a further Close is a no-op" is FALSE of the code once the object has been
-   recycled: the Close made by the goroutine of connection 0 closes connection 1 and releases its per-IP unit. *)
-Theorem C12_pool_close_hits_other_connection_refuted :
-  exists s, prun pinit stale_trace = Some s /\ closes_own s = false /\ uclosed s = [(0, 0); (0, 1)]%nat /\
-            pm s 33686018%N = None /\ nth_error (owner s) 1 = Some 0%nat.
-Proof. exact stale_close_hits_other_connection. Qed.
-Print Assumptions C12_pool_close_hits_other_connection_refuted.
+(* ---- the wrapper objects (second LTS of Model/Limits.v: perIPConn objects keep their identity) ---------------------------------
+   Every Close closes the connection the object was acquired for, and only the first one does anything: for any number of
+   connections, any number of Close calls through any reference, any interleaving; perIPConnPool stays empty.  (This is the code
+   after bf2f4e5 "do not recycle perIPConn wrappers"; before it the statement was false: a stale Close closed the next owner.) *)
+Theorem C12_pool_every_close_closes_its_own_connection : forall tr s, prun pinit tr = Some s -> closes_own s = true /\ pool s = [].
+Proof. exact closes_own_always. Qed.
+Print Assumptions C12_pool_every_close_closes_its_own_connection.
 
-(* the guard that excludes it: nobody calls Close twice through the same acquisition; then every Close closes the caller's own connection,
-   for any number of connections, any recycling order of the pool, any interleaving *)
-Theorem C12_pool_closes_own_when_closed_once : forall tr s, prun pinit tr = Some s -> NoDup (closers tr) -> closes_own s = true.
-Proof. exact closes_own_when_closed_once. Qed.
-Print Assumptions C12_pool_closes_own_when_closed_once.
+(* the schedule of the former finding is harmless now, and no connection can be given a used object *)
+Example C12_ex_stale_close_is_a_noop :
+  exists s, prun pinit stale_trace = Some s /\ closes_own s = true /\ uclosed s = [(0, 0)]%nat /\
+            pm s 33686018%N = Some 1%Z /\ prun pinit [PAcquire 16843009 None; PClose 0; PAcquire 33686018 (Some 0%nat)] = None.
+Proof. exact stale_close_is_a_noop. Qed.
 
 (* ---- non-vacuity: the three configurations of the getter statement, a 429, a 503 on each path, a hijack -------------------- *)
 Definition a1 := ATcp [1;1;1;1]%N.
